@@ -45,7 +45,7 @@ ASSUMPTIONS = [
 EXHAUSTIVE = {"quick": True, "thorough": True}
 PLAN = {"quick": dict(rewraps=1500), "thorough": dict(rewraps=60000)}
 FLOORS = {"quick": {"judged": 12000, "predicates": 55, "objects": 330, "spelling_groups_checked": 30, "stability_checked": 12000, "origin_instantiable_checked": 60},
-          "thorough": {"judged": 200000, "predicates": 55, "objects": 330, "spelling_groups_checked": 30, "stability_checked": 200000, "origin_instantiable_checked": 60}}
+          "thorough": {"judged": 80000, "predicates": 55, "objects": 330, "spelling_groups_checked": 30, "stability_checked": 80000, "origin_instantiable_checked": 60}}
 
 T = typing.TypeVar("T")
 TB = typing.TypeVar("TB", bound=int)
